@@ -66,13 +66,11 @@ def admittance_sums(rep, prog):
     # branches_connected_to: membership test (the subsequent sort does not change the set)
     mem = prog.find_member(nm, ncls, 'branches_connected_to')
     fn = mem[1]
-    comps = [n for n in _ast.walk(fn) if isinstance(n, _ast.ListComp)]
-    okc = None
-    if comps:
-        ev = new_ev(prog)
-        t = ev.ev(comps[0], {'__parent__': None, 'self': A('self'), fn.args.args[1].arg: A('node')}, nm, 1)
-        sp = spec(ev, "[b for b in self.branches if b.node1 == node or b.node2 == node]", env, nm)
-        okc = True if term_equal(t, sp) else (None if has_opaque(t) else False)
+    ev = new_ev(prog)
+    t = ev.call_fn(fn, mem[0], [A('self'), A('node')], {}, {'__parent__': None}, 1)
+    while isinstance(t, Opq) and t.k and t.k[0] == 'mutated' and t.k[1] == 'sort': t = t.k[2]        # sorting does not change the membership
+    sp = spec(ev, "[b for b in self.branches if b.node1 == node or b.node2 == node]", env, nm)
+    okc = True if term_equal(t, sp) else (None if has_opaque(t) or not isinstance(t, Comp) else False)
     rep.ob('R01.Y', 'Network.branches_connected_to', okc, 'branches with either terminal on the node', prog.site(mem[0], fn))
     # node_admittance_matrix works on the network without exactly its ideal voltage sources
     f = prog.func(NA, 'node_admittance_matrix')
